@@ -14,6 +14,7 @@ import (
 	"path/filepath"
 	"sort"
 	"strings"
+	"time"
 )
 
 // Case is one line of the interchange format.
@@ -136,6 +137,9 @@ func main() {
 				c.ID = fmt.Sprintf("%s-%d-%d", prop, *seed, i)
 			}
 			seen[c.ID] = true
+			if hungCases >= maxHung {
+				break // several cases hang: stop early, what was collected is written below
+			}
 			res := runSafe(h, c)
 			if res.Ops != nil {
 				c.Ops = res.Ops
@@ -164,14 +168,41 @@ func main() {
 	}
 }
 
-func runSafe(h Harness, c Case) (res Result) {
-	defer func() {
-		if r := recover(); r != nil {
-			res.Obs = append(res.Obs, fmt.Sprintf("harness-panic=%q", fmt.Sprint(r)))
-			res.Oracle = append(res.Oracle, fmt.Sprintf("harness-panic\t%v", r))
-		}
+// caseTimeout is the wall-clock budget of ONE case (cases normally take milliseconds).  A harness
+// may override it by implementing CaseTimeout().  A case that exceeds it is reported as a hang of
+// the code under test (observation `harness-timeout`, oracle clause `hang`), its goroutine is
+// abandoned, and after maxHung such cases the run stops early (outputs are still written), so that
+// a change which makes the library spin can never make a check run forever.
+const defaultCaseTimeout = 120 * time.Second
+const maxHung = 3
+
+var hungCases int
+
+func runSafe(h Harness, c Case) Result {
+	budget := defaultCaseTimeout
+	if t, ok := h.(interface{ CaseTimeout() time.Duration }); ok {
+		budget = t.CaseTimeout()
+	}
+	done := make(chan Result, 1)
+	go func() {
+		var res Result
+		defer func() {
+			if r := recover(); r != nil {
+				res.Obs = append(res.Obs, fmt.Sprintf("harness-panic=%q", fmt.Sprint(r)))
+				res.Oracle = append(res.Oracle, fmt.Sprintf("harness-panic\t%v", r))
+			}
+			done <- res
+		}()
+		res = h.Run(c)
 	}()
-	return h.Run(c)
+	select {
+	case res := <-done:
+		return res
+	case <-time.After(budget):
+		hungCases++
+		return Result{Obs: []string{"harness-timeout"},
+			Oracle: []string{fmt.Sprintf("hang\tthe case did not finish within %s (the code under test loops or blocks)", budget)}}
+	}
 }
 
 func uniq(s []string) []string {
